@@ -29,7 +29,7 @@ def chain_dims_ok(chain):
     return all(a.fromdims == b.todims for a, b in zip(chain[:-1], chain[1:]))
 
 
-def rand_points(rng, ndims, n=4):
+def rand_points(rng, ndims, n=3):
     return rng.uniform(0.05, 0.95, size=(n, ndims))
 
 
@@ -89,7 +89,8 @@ class Contract:
         self.raised = 0
         self.failures = []
         self.busy = False
-        self.every = 1
+        self.depth = 0
+        self.every = 2   # check every 2nd successful call (cost control)
         self.rng = numpy.random.default_rng(12345)
         self.installed = []
 
@@ -108,13 +109,17 @@ class Contract:
         contract = self
 
         def index_with_tail(self, trans):
+            contract.depth += 1
             try:
                 out = orig(self, trans)
             except ValueError:
                 contract.raised += 1
                 raise
+            finally:
+                contract.depth -= 1
             contract.calls += 1
-            if contract.busy or (contract.calls % contract.every):
+            # outermost calls: every `every`-th; calls nested inside another sequence's lookup: every 4*`every`-th (cost control)
+            if contract.busy or (contract.calls % (contract.every * (4 if contract.depth else 1))):
                 return out
             contract.busy = True
             try:
@@ -227,10 +232,10 @@ class Reporter:
         self.res, self.case = res, case
         self.nviol = 0
 
-    def violation(self, monitor, detail, **extra):
+    def violation(self, monitor, detail, mechanism=None, **extra):
         self.nviol += 1
         if self.nviol <= 6:
-            self.res.violation(monitor, dict(self.case, **extra), detail)
+            self.res.violation(monitor, dict(self.case, **extra), detail, mechanism=mechanism)
 
     def count(self, name, n=1):
         self.res.count(name, n)
@@ -246,6 +251,14 @@ def _lookup(seq, method, chain):
         return 'exc', f'{type(e).__name__}: {e}'[:300]
 
 
+def scaledupdim_identity(chain, ntrans):
+    """Structural predicate of finding C11-scaledupdim-identity-tail: the *tail* contains a plain Identity
+    (own-child transform of a trimmed point reference) directly after a ScaledUpdim, which the lookup code
+    reads as the encoded pair (child, edge)."""
+    from nutils import transform
+    return any(type(chain[k]) is transform.Identity and type(chain[k - 1]) is transform.ScaledUpdim for k in range(max(1, ntrans), len(chain)))
+
+
 def check_found(seq, items, i, tail, chain, rng, rep, where, form='literal'):
     """chain == items[i] + tail (literally, or an equivalent rewriting when form != 'literal')."""
     rep.count('lookups')
@@ -255,7 +268,8 @@ def check_found(seq, items, i, tail, chain, rng, rep, where, form='literal'):
         if form != 'literal':
             rep.count('rewritten_chain_not_resolved/' + form)
             return False
-        rep.violation('index_with_tail raised ValueError for element chain + valid tail', f'{where}: i={i} chain={chain!r}'[:1500], where=where, i=i, tail=repr(tail))
+        rep.violation('index_with_tail raised ValueError for element chain + valid tail', f'{where}: i={i} chain={chain!r}'[:1500],
+                      mechanism='C11-scaledupdim-identity-tail' if scaledupdim_identity(chain, len(chain) - len(tail)) else None, where=where, i=i, tail=repr(tail))
         return False
     if st == 'exc':
         rep.violation('index_with_tail raised unexpected exception', f'{where}: i={i} form={form} {out} chain={chain!r}'[:1500], where=where, i=i, tail=repr(tail))
@@ -277,7 +291,10 @@ def check_found(seq, items, i, tail, chain, rng, rep, where, form='literal'):
     if t2 and t2[0].todims != seq.fromdims:
         rep.violation('returned tail has wrong dims', f'{where}: tail[0].todims={t2[0].todims} != seq.fromdims={seq.fromdims}', where=where, i=i, tail=repr(tail))
         return False
-    # the boolean / no-tail interfaces must agree
+    # the boolean / no-tail interfaces must agree (sampled: each is another full lookup)
+    if form != 'literal' or rng.random() < .6:
+        return True
+    rep.count('lookups_with_boolean_interfaces')
     st2, k = _lookup(seq, 'index', chain)
     if tail:
         if st2 != 'ValueError':
@@ -479,7 +496,7 @@ def check_lookups(seq, refs, items, rng, rep, where, nlook, gc_stress=True, sibl
                     except Exception as e:
                         rep.violation(f'{form} raised on a valid chain', f'{where}: {type(e).__name__}: {e}; chain={full!r}'[:1000], where=where, i=i, tail=repr(tail))
                         continue
-                    if tuple(map(id, alt)) == tuple(map(id, full)):
+                    if tuple(map(id, alt)) == tuple(map(id, full)) or rng.random() < .4:
                         continue
                     check_found(seq, items, i, tail, alt, rng, rep, where, form=form)
         if gc_stress and rng.random() < .5:
